@@ -1,8 +1,9 @@
 (* C02 — node-splitting invariance of all n.s.i. measures. *)
 From Coq Require Import QArith Qcanon List Bool Arith Permutation.
 From PV.Base Require Import Sums.
-From PV.Model Require Import NsiLang Split Measures.
-From PV.Proofs Require Import NsiLang Split Measures.
+From PV.Model Require Import NsiLang Split Measures MatAlg.
+From PV.Proofs Require Import NsiLang Split Measures MatAlgGen.
+From PV.Gen Require Import NsiTerms.
 Import ListNotations.
 
 (* -- every term of the language has the same value on every weighted pullback
@@ -62,3 +63,74 @@ Example C02_example :
   eval (to_graph r) [1%nat] nsi_local_clustering.
 Proof. exact example_split. Qed.
 Print Assumptions C02_example.
+
+(* ---- the tie to the source: the expression each algebraic n.s.i. measure of
+        core/network.py computes is regenerated on every run as a term of the
+        sparse-matrix algebra (Gen/NsiTerms.v <- translate/py_nsi_terms.py) and
+        proved to denote the catalogue term the pullback theorem is about ---- *)
+Theorem C02_source_plain_denote tw a : all_denote Ptrue (source_plain tw a).
+Proof. exact (source_plain_denote tw a). Qed.
+Print Assumptions C02_source_plain_denote.
+
+(* the motif clusterings divide the node's own weight out: w_i <> 0 *)
+Theorem C02_source_motif_denote tw a : all_denote Pweight (source_motif tw a).
+Proof. exact (source_motif_denote tw a). Qed.
+Print Assumptions C02_source_motif_denote.
+
+(* nsi_local_clustering (uncorrected) is written for a symmetric loop-free A *)
+Theorem C02_source_undirected_denote : all_denote Pundirected source_undirected.
+Proof. exact source_undirected_denote. Qed.
+Print Assumptions C02_source_undirected_denote.
+
+Theorem C02_source_global_denote G :
+  sden G gen_nsi_transitivity = eval G [] nsi_transitivity /\
+  (Pundirected G 0%nat -> sden G gen_nsi_global_clustering = eval G [] nsi_global_clustering) /\
+  (forall i j, (i < gn G)%nat -> (j < gn G)%nat ->
+     mden G gen_nsi_twinness i j = eval G [i; j] nsi_twinness).
+Proof.
+  split; [exact (gen_nsi_transitivity_denotes G)|].
+  split; [intros [S R]; exact (gen_nsi_global_clustering_denotes G S R)|].
+  exact (gen_nsi_twinness_denotes G).
+Qed.
+Print Assumptions C02_source_global_denote.
+
+(* -- hence: positive weights, any node, any proportion in (0,1): every
+      per-node expression of the source has equal values on untouched nodes
+      and v's value on both twins -- *)
+Theorem C02_source_split_invariant tw a r v p ve :
+  In ve (source_plain tw a ++ source_motif tw a) ->
+  (v < rn r)%nat -> (forall i, ra r i i = false) ->
+  (forall u, 0 < rw r u)%Qc -> (0 < p)%Qc -> (p < 1)%Qc ->
+  forall i, (i < S (rn r))%nat ->
+  vden (to_graph (split r v p)) (fst ve) i = vden (to_graph r) (fst ve) (orig (rn r) v i).
+Proof. exact (source_split_invariant tw a r v p ve). Qed.
+Print Assumptions C02_source_split_invariant.
+
+Theorem C02_source_split_invariant_undirected r v p :
+  (v < rn r)%nat -> (forall i, ra r i i = false) -> (forall i j, ra r i j = ra r j i) ->
+  (forall i, (i < S (rn r))%nat ->
+     vden (to_graph (split r v p)) gen_nsi_local_clustering i =
+     vden (to_graph r) gen_nsi_local_clustering (orig (rn r) v i)) /\
+  sden (to_graph (split r v p)) gen_nsi_global_clustering =
+  sden (to_graph r) gen_nsi_global_clustering.
+Proof. exact (source_split_invariant_undirected r v p). Qed.
+Print Assumptions C02_source_split_invariant_undirected.
+
+Theorem C02_source_pair_global_invariant G' G phi : pullback G' G phi ->
+  sden G' gen_nsi_transitivity = sden G gen_nsi_transitivity /\
+  forall i j, (i < gn G')%nat -> (j < gn G')%nat ->
+    mden G' gen_nsi_twinness i j = mden G gen_nsi_twinness (phi i) (phi j).
+Proof.
+  intros PB. split; [exact (source_transitivity_invariant G' G phi PB)|].
+  exact (source_twinness_invariant G' G phi PB).
+Qed.
+Print Assumptions C02_source_pair_global_invariant.
+
+Example C02_source_example :
+  let r := raw_of [[false; true; false]; [true; false; true]; [false; true; false]]
+                  [1; 1 # 2; 3 # 4]%Q [] [] in
+  vden (to_graph (split r 1 (Q2Qc (1 # 4)))) gen_nsi_local_clustering 3 =
+  vden (to_graph r) gen_nsi_local_clustering 1 /\
+  vden (to_graph r) gen_nsi_local_clustering 1 <> Q2Qc 0.
+Proof. exact source_example. Qed.
+Print Assumptions C02_source_example.
